@@ -4,6 +4,7 @@ import (
 	"errors"
 	"fmt"
 	"io"
+	"strings"
 	"sync"
 	"testing"
 
@@ -21,6 +22,29 @@ import (
 	"verif/selx"
 	"verif/val"
 )
+
+func c15HasSubset(s refsel.Sel) bool {
+	if s.Subset != nil {
+		return true
+	}
+	if s.Next != nil && c15HasSubset(*s.Next) {
+		return true
+	}
+	if s.Seq != nil && c15HasSubset(*s.Seq) {
+		return true
+	}
+	for _, f := range s.Fields {
+		if c15HasSubset(f.Sel) {
+			return true
+		}
+	}
+	for _, m := range s.Members {
+		if c15HasSubset(m) {
+			return true
+		}
+	}
+	return false
+}
 
 // C15: traversal controls only restrict a walk; they never change what it would visit.
 
@@ -395,6 +419,15 @@ func c15Check(c C15Case, rec *evid.Rec) error {
 		}
 		cf := cfg()
 		cf.StartAtPath = base.Paths[i]
+		if i%2 == 1 {
+			// the same path as a caller would write it down: every segment string-stored (the walk's own paths
+			// hold list positions as integers)
+			var ss []datamodel.PathSegment
+			for _, sg := range base.Paths[i].Segments() {
+				ss = append(ss, datamodel.PathSegmentOfString(sg.String()))
+			}
+			cf.StartAtPath = datamodel.NewPath(ss)
+		}
 		got := selx.WalkAdv(real, traversal.Progress{Cfg: cf}, sel)
 		if got.Err != nil {
 			return fmt.Errorf("start-at %q (%s) failed: %v", U[i].Path, c.S, got.Err)
@@ -492,6 +525,41 @@ func c15Check(c C15Case, rec *evid.Rec) error {
 			binding["skip"] = true
 		}
 		rec.Class("walks")
+		// the transforming walk (identity function) under the same loader: whatever it hands to the function, it
+		// hands over under the path at which the read-only walk matches that very value — skipped blocks must not
+		// shift the positions of what comes after them
+		matched := map[string][]val.V{}
+		for _, v := range want.Visits {
+			if v.Reason == "m" {
+				matched[v.Path] = append(matched[v.Path], v.Value)
+			}
+		}
+		var bad error
+		plainMatchers := !c15HasSubset(c.S) // the transform contract does not define slicing
+		terr := evid.Guard("WalkTransforming", func() error {
+			if !plainMatchers {
+				return nil
+			}
+			_, e := traversal.Progress{Cfg: cf}.WalkTransforming(real.Root, sel, func(p traversal.Progress, n datamodel.Node) (datamodel.Node, error) {
+				if v, rerr := nodes.Read(n); rerr == nil && bad == nil {
+					ok := false
+					for _, w := range matched[p.Path.String()] {
+						ok = ok || val.Equal(v, w, val.Ordered)
+					}
+					if !ok {
+						bad = fmt.Errorf("WalkTransforming of %s with a skipping loader handed %s to the function under path %q, where the read-only walk matches %d other value(s)", c.S, v.Short(100), p.Path.String(), len(matched[p.Path.String()]))
+					}
+				}
+				return n, nil
+			})
+			return e
+		})
+		if terr != nil && strings.HasPrefix(terr.Error(), "PANIC") {
+			return fmt.Errorf("WalkTransforming of %s with a skipping loader: %v", c.S, terr)
+		}
+		if terr == nil && bad != nil {
+			return bad
+		}
 	}
 	var cls []string
 	for k := range binding {
